@@ -126,7 +126,31 @@ def storeAttach (s : State) (m : StoreMsg) (order : Order) (lastCommitId commitI
       status := MetaNew, orders := [] }
     softTx' (newMeta s order md)
 
-def saoStore (e : Env) (s : State) (m : StoreMsg) : TxM State := do
+/-- the paying and placing part of `Store`: providers are selected (when a gateway submitted the request), the price is
+    charged to the payer, the order and its shards are created, the first timeout check is scheduled, and the order is
+    attached to the data model -/
+def storePlace (e : Env) (s : State) (m : StoreMsg) (order : Order) (payAddr : Option Addr) (isProvider : Bool)
+    (lastCommitId commitId : Bytes) : TxM State := do
+  let p := m.p
+  let (s, sps) ← (if isProvider then getSps s order p.dataId else pure (s, []) : TxM (State × List Node))
+  let order := { order with unitPrice := unitPriceDec }
+  let amount ← orderPrice order.size order.replica order.duration
+  let payer ← (match payAddr with
+    | some a => pure a
+    | none => match s.paymentAddress p.owner with
+      | some a => pure a
+      | none => throw "payment address not set" : TxM Addr)
+  if s.bal payer < amount then throw "insufficient coin"
+  let s ← s.sendLit payer e.modOrder amount
+  let order := { order with amount := amount }
+  let (order, s) := newOrder s order (sps.map (·.creator))
+  let s := if isProvider then setTimeoutOrderBlock s order.id (addU64 order.createdAt order.timeout) else s
+  storeAttach s m order lastCommitId commitId
+
+/-- the checks of `Store`: signature, field sanity, permission on an existing model, who pays, the gateway named by the
+    proposal, the base and new version, and whether the submitter may hand the order to providers right away. Returns
+    the order skeleton, the sponsor's address (if any), that flag and the two version ids. -/
+def storeGuards (s : State) (m : StoreMsg) : TxM (Order × Option Addr × Bool × Bytes × Bytes) := do
   let p := m.p
   if !m.sigValid then throw "invalid signature"
   if p.commitId = [] then throw "invalid commitId"
@@ -170,20 +194,11 @@ def saoStore (e : Env) (s : State) (m : StoreMsg) : TxM State := do
              | some n => n.txAddresses.contains m.creator
              | none => false))
         if ip then pure true else throw "invalid provider" : TxM Bool)
-  let (s, sps) ← (if isProvider then getSps s order p.dataId else pure (s, []) : TxM (State × List Node))
-  let order := { order with unitPrice := unitPriceDec }
-  let amount ← orderPrice order.size order.replica order.duration
-  let payer ← (match payAddr with
-    | some a => pure a
-    | none => match s.paymentAddress p.owner with
-      | some a => pure a
-      | none => throw "payment address not set" : TxM Addr)
-  if s.bal payer < amount then throw "insufficient coin"
-  let s ← s.sendLit payer e.modOrder amount
-  let order := { order with amount := amount }
-  let (order, s) := newOrder s order (sps.map (·.creator))
-  let s := if isProvider then setTimeoutOrderBlock s order.id (addU64 order.createdAt order.timeout) else s
-  storeAttach s m order lastCommitId commitId
+  pure (order, payAddr, isProvider, lastCommitId, commitId)
+
+def saoStore (e : Env) (s : State) (m : StoreMsg) : TxM State := do
+  let (order, payAddr, isProvider, lastCommitId, commitId) ← storeGuards s m
+  storePlace e s m order payAddr isProvider lastCommitId commitId
 
 /-- who may hand a pending order to providers: its gateway itself, or one of the gateway's addresses -/
 def readyAllowed (s : State) (creator msgProvider : Addr) (o : Order) : Bool :=
@@ -368,20 +383,24 @@ def renewShard (e : Env) (s : State) (sh : Shard) (newOrderId duration : Nat) (u
   let expiredAt := sh.renewInfos.foldl (fun a ri => addU64 a ri.duration) (addU64 sh.createdAt sh.duration)
   pure (s.setShard sh, change, expiredAt)
 
-/-- one data id of Renew; `false` = this data id failed (the transaction carries on). -/
-def renewOne (e : Env) (s : State) (pool : Pool) (creator msgProvider : Addr) (sigDid : Did) (duration : Nat) (timeout : Int) (d : Bytes) :
-    TxM (State × Pool × Bool) := do
-  let some md := s.getMeta d | return (s, pool, false)
-  if md.owner ≠ sigDid then return (s, pool, false)
-  if md.status ≠ MetaComplete then return (s, pool, false)
-  let some order := s.getOrder md.orderId | return (s, pool, false)
-  let shards? := order.shards.mapM (fun id =>
+/-- the checks of Renew for one data id: the model, its current order and that order's shards; `none` = this data id
+    is skipped (not found, not the signer's model, an update in flight, a shard neither stored nor migrating, expired) -/
+def renewGuards (s : State) (sigDid : Did) (d : Bytes) : Option (Metadata × Order × List Shard) := do
+  let md ← s.getMeta d
+  if md.owner ≠ sigDid then none
+  if md.status ≠ MetaComplete then none
+  let order ← s.getOrder md.orderId
+  let shards ← order.shards.mapM (fun id =>
     match s.getShard id with
     | none => none
     | some sh => if sh.status ≠ ShardCompleted ∧ sh.status ≠ ShardMigrating then none else some sh)
-  let some shards := shards? | return (s, pool, false)
-  if order.status ≠ OrderCompleted then return (s, pool, false)
-  if toI64 order.createdAt + toI64 order.duration < s.h then return (s, pool, false)
+  if order.status ≠ OrderCompleted then none
+  if toI64 order.createdAt + toI64 order.duration < s.h then none
+  pure (md, order, shards)
+
+/-- Renew for one data id that passed the checks -/
+def renewBody (e : Env) (s : State) (pool : Pool) (creator msgProvider : Addr) (duration : Nat) (timeout : Int)
+    (md : Metadata) (order : Order) (shards : List Shard) : TxM (State × Pool × Bool) := do
   let amount ← orderPrice order.size order.replica duration
   -- the renewal order lists only the shards it renews (the `fix:` of F12)
   let renewed := (shards.filter (fun sh => sh.status = ShardCompleted)).map (·.id)
@@ -403,6 +422,13 @@ def renewOne (e : Env) (s : State) (pool : Pool) (creator msgProvider : Addr) (s
   let s ← extendMetaDuration s md.dataId mx
   let (s, _) ← updateMeta e s newO
   return (s, pool, true)
+
+/-- one data id of Renew; `false` = this data id failed (the transaction carries on). -/
+def renewOne (e : Env) (s : State) (pool : Pool) (creator msgProvider : Addr) (sigDid : Did) (duration : Nat) (timeout : Int) (d : Bytes) :
+    TxM (State × Pool × Bool) :=
+  match renewGuards s sigDid d with
+  | none => pure (s, pool, false)
+  | some (md, order, shards) => renewBody e s pool creator msgProvider duration timeout md order shards
 
 def saoRenew (e : Env) (s : State) (creator msgProvider : Addr) (sigValid : Bool) (sigDid : Did) (duration : Nat) (timeout : Int) (data : List Bytes) :
     TxM (State × List Bool) := do
